@@ -47,7 +47,7 @@ Hypothesis eps_pos : 0 < eps.
 Lemma node_remove_safe n tid : node_safe eps n -> node_safe eps (node_remove n tid).
 Proof.
   intros [Hc Hnn]. split.
-  - apply node_remove_keeps_capacity; [exact eps_pos|exact Hc|]. intros c Hl. eapply Hnn; exact Hl.
+  - apply node_remove_keeps_capacity; [exact Hc|]. intros c Hl. eapply Hnn; exact Hl.
   - intros i c. rewrite node_remove_tasks. intros Hl. apply lookup_delete_Some in Hl as [_ Hl]. eapply Hnn; exact Hl.
 Qed.
 
@@ -70,7 +70,7 @@ Theorem nsteps_safe a b : nsteps eps a b -> nodes_safe eps a -> nodes_safe eps b
 Proof.
   induction 1 as [|ns nid n tid ns' Hl _ IH|ns nid n t n' t' ns' Hl Hnn Hg Ha _ IH]; intros Hs; [exact Hs| |].
   - apply IH. apply nodes_safe_insert; [exact Hs|]. apply node_remove_safe. eapply Hs; exact Hl.
-  - apply IH. apply nodes_safe_insert; [exact Hs|]. eapply node_add_safe; eauto. eapply Hs; exact Hl.
+  - apply IH. apply nodes_safe_insert; [exact Hs|]. eapply node_add_safe; eauto.
 Qed.
 
 (* ---------- tasks ---------- *)
@@ -108,7 +108,7 @@ Definition sess_ok (s : sess) : Prop := sess_okp (heap s) (jobs s) (stmts s).
 
 Lemma is_Some_insert_mono {A} (m : gmap positive A) k x k' : is_Some (m !! k') -> is_Some (<[k:=x]> m !! k').
 Proof.
-  intros H. destruct (decide (k = k')) as [->|Hne]; [rewrite lookup_insert; eauto|].
+  intros H. destruct (Pos.eq_dec k k') as [->|Hne]; [rewrite lookup_insert; eauto|].
   rewrite lookup_insert_ne by exact Hne. exact H.
 Qed.
 
@@ -213,20 +213,19 @@ Proof.
   - destruct (node_add eps n p2) as [[n' p']|e] eqn:Ea.
     + pose proof (node_add_ret eps n p2 n' p' Ea) as Hp'.
       assert (Hstep : nsteps eps (nodes s) (<[nid := n']> (nodes s))).
-      { eapply ns_add; [exact En|apply Hp|apply place_guard_add; apply Hg; reflexivity|exact Ea|apply ns_refl]. }
-      set (s3 := put_task (upd_nodes (put_task s1 p2) (<[nid:=n']> (nodes s1))) p').
+      { eapply (ns_add eps _ nid n p2 n' p'); [exact En|exact (proj1 (proj1 Hp))|exact (place_guard_add k n p nid (Hg n eq_refl))|exact Ea|apply ns_refl]. }
+      set (s3 := put_task (upd_nodes (put_task s1 p2) (<[nid:=n']> (nodes s))) p').
       assert (Hp3 : ptask_ok s3 p') by (subst p'; exact Hp1).
       assert (Hs3 : sess_ok s3) by (apply sess_ok_put; [exact Hs2|exact Hp3]).
-      assert (Hn3 : nodes s3 = <[nid := n']> (nodes s)) by (simpl; rewrite Hn; reflexivity).
-      unfold h_alloc at 1. cbv zeta. simpl andb.
-      destruct (negb (bool_decide (t_id p' ∈ herr s3))).
-      * simpl fst. split; [apply push_op_ok; [exact Hs3|exact Hk]|]. simpl nodes. rewrite Hn. exact Hstep.
-      * simpl fst. destruct (Htail s3 p' Hs3 Hp3) as [H1 H2]. split; [exact H1|].
-        eapply nsteps_trans; [exact Hstep|]. rewrite <- Hn3. exact H2.
-    + unfold h_alloc at 1. cbv zeta. simpl andb. rewrite andb_false_r. simpl "&&". simpl fst.
+      unfold h_alloc. cbv beta zeta iota.
+      match goal with |- context [negb (bool_decide ?P)] => destruct (negb (bool_decide P)) end; cbn [andb fst].
+      * split; [apply push_op_ok; [exact Hs3|exact Hk]|exact Hstep].
+      * destruct (Htail s3 p' Hs3 Hp3) as [H1 H2]. split; [exact H1|].
+        eapply nsteps_trans; [exact Hstep|exact H2].
+    + unfold h_alloc. cbv beta zeta iota. cbn [andb fst].
       destruct (Htail (put_task s1 p2) p2 Hs2 Hp2) as [H1 H2]. split; [exact H1|].
       rewrite <- Hn. exact H2.
-  - unfold h_alloc at 1. cbv zeta. simpl andb. rewrite andb_false_r. simpl "&&". simpl fst.
+  - unfold h_alloc. cbv beta zeta iota. cbn [andb fst].
     destruct (Htail (put_task s1 p2) p2 Hs2 Hp2) as [H1 H2]. split; [exact H1|].
     rewrite <- Hn. exact H2.
 Qed.
@@ -245,7 +244,7 @@ Proof.
 Qed.
 
 Lemma undo_op_ok s o :
-  op_kind o <> KEvict -> sess_ok s -> sess_ok (undo_op s o) /\ nsteps eps (nodes s) (nodes (undo_op s o)).
+  op_kind o <> KEvict -> sess_ok s -> sess_ok (undo_op eps s o) /\ nsteps eps (nodes s) (nodes (undo_op eps s o)).
 Proof.
   intros Hk Hs. unfold undo_op. destruct (heap s !! op_task o) as [p|] eqn:E; [|split; [exact Hs|apply ns_refl]].
   pose proof (sess_ok_heap s _ p Hs E) as Hp.
@@ -253,7 +252,7 @@ Proof.
 Qed.
 
 Lemma commit_op_ok s o :
-  op_kind o <> KEvict -> sess_ok s -> sess_ok (commit_op s o) /\ nsteps eps (nodes s) (nodes (commit_op s o)).
+  op_kind o <> KEvict -> sess_ok s -> sess_ok (commit_op eps s o) /\ nsteps eps (nodes s) (nodes (commit_op eps s o)).
 Proof.
   intros Hk Hs. unfold commit_op. destruct (heap s !! op_task o) as [p|] eqn:E; [|split; [exact Hs|apply ns_refl]].
   pose proof (sess_ok_heap s _ p Hs E) as Hp.
@@ -278,7 +277,7 @@ Theorem stmt_commit_ok s sid :
   sess_ok s -> sess_ok (stmt_commit eps s sid) /\ nsteps eps (nodes s) (nodes (stmt_commit eps s sid)).
 Proof.
   intros Hs. unfold stmt_commit. cbv zeta.
-  destruct (fold_ops_ok commit_op commit_op_ok (default [] (stmts s !! sid)) s (stmt_ops_no_evict s sid Hs) Hs) as [H1 H2].
+  destruct (fold_ops_ok (commit_op eps) commit_op_ok (default [] (stmts s !! sid)) s (stmt_ops_no_evict s sid Hs) Hs) as [H1 H2].
   split; [apply clear_stmt_ok; exact H1|exact H2].
 Qed.
 
@@ -339,21 +338,21 @@ Proof.
   destruct (node_add eps n p2) as [[n' p3]|e] eqn:Ea; [|exact Hrev].
   pose proof (node_add_ret eps n p2 n' p3 Ea) as Hp3e.
   assert (Hstep : nsteps eps (nodes s) (<[nid := n']> (nodes s))).
-  { eapply ns_add; [exact En|apply Hp|apply place_guard_add; apply (Hg p n); [reflexivity|exact En]|exact Ea|apply ns_refl]. }
-  set (s3 := put_task (upd_nodes (put_task s1 p2) (<[nid:=n']> (nodes s1))) p3).
+  { eapply (ns_add eps _ nid n p2 n' p3); [exact En|exact (proj1 (proj1 Hp))|exact (place_guard_add k n p nid (Hg p n eq_refl eq_refl))|exact Ea|apply ns_refl]. }
+  set (s3 := put_task (upd_nodes (put_task s1 p2) (<[nid:=n']> (nodes s))) p3).
   assert (Hp3 : ptask_ok s3 p3) by (subst p3; exact Hp1).
   assert (Hs3 : sess_ok s3) by (apply sess_ok_put; [exact Hs2|exact Hp3]).
-  unfold h_alloc at 1. cbv zeta.
-  set (s4 := upd_handlers s3 _ _).
+  unfold h_alloc. cbv beta zeta iota.
+  match goal with |- context [(?S, ROk)] => set (s4 := S) end.
   assert (Hs4 : sess_ok s4) by exact Hs3.
-  assert (Hn4 : nodes s4 = <[nid := n']> (nodes s)) by (simpl; rewrite Hn; reflexivity).
-  assert (Hdone : sess_ok s4 /\ nsteps eps (nodes s) (nodes s4)) by (split; [exact Hs4|rewrite Hn4; exact Hstep]).
+  assert (Hn4 : nodes s4 = <[nid := n']> (nodes s)) by reflexivity.
+  assert (Hdone : sess_ok s4 /\ nsteps eps (nodes s) (nodes s4)) by (split; [exact Hs4|exact Hstep]).
   destruct k; try exact Hdone.
   destruct (jobs s4 !! t_job p) as [j|]; [|exact Hdone].
   destruct (jr s4 j); [|exact Hdone].
   destruct (dispatch_all_ok (elements (default ∅ (j_index j !! skey Allocated))) s4 Hs4) as [H1 H2].
   destruct (dispatch_all s4 _) as [s5 ok]. simpl in H1, H2. simpl fst.
-  split; [exact H1|]. rewrite H2, Hn4. exact Hstep.
+  split; [exact H1|]. rewrite H2. exact Hstep.
 Qed.
 
 (* ---------- the action skeleton ---------- *)
@@ -437,6 +436,10 @@ Qed.
 
 Definition world_ok (w : world) : Prop := cap_inv (w_sess w).
 
+Corollary step_nodes w o :
+  world_ok w -> nsteps eps (nodes (w_sess w)) (nodes (w_sess (fst (step eps w o)))).
+Proof. intros Hw. exact (proj2 (step_ok w o Hw)). Qed.
+
 Lemma step_world_ok w o : world_ok w -> world_ok (fst (step eps w o)).
 Proof. intros H. destruct (step_ok w o H) as [H1 H2]. eapply cap_inv_step; eassumption. Qed.
 
@@ -482,7 +485,10 @@ Proof.
 Qed.
 
 Lemma above_minus_eps_nonneg x : (g | x) -> - eps < x -> 0 <= x.
-Proof. intros [q ->] H. nia. Qed.
+Proof.
+  intros [q ->] H. destruct (Z_lt_le_dec q 0) as [Hq|Hq]; [|nia].
+  assert (q * g <= - g) by nia. lia.
+Qed.
 
 Definition on_grid (n : node) (d : dim) : Prop :=
   (g | amt (n_alloc n) d) /\ Forall (fun c => (g | amt (t_req c) d)) (copies n).
@@ -491,7 +497,7 @@ Lemma forall_copies_div (F : dim -> task -> Z) n d :
   (forall c, F d c = 0 \/ F d c = amt (t_req c) d) ->
   Forall (fun c => (g | amt (t_req c) d)) (copies n) -> Forall (fun c => (g | F d c)) (copies n).
 Proof.
-  intros HF. apply Forall_impl. intros c Hc. destruct (HF c) as [-> | ->]; [apply Z.divide_0_r|exact Hc].
+  intros HF H. eapply Forall_impl; [exact H|]. intros c Hc. simpl. destruct (HF c) as [-> | ->]; [apply Z.divide_0_r|exact Hc].
 Qed.
 
 Theorem grid_no_overcommit h n d :
